@@ -438,7 +438,7 @@ def r7(ctx, rep):
 
 
 def r8(ctx, rep):
-    rep.rule("C08.R8", "the fields of a relation literal's rows are placed by name, not by position", floor=1)
+    rep.rule("C08.R8", "the fields of a relation literal's rows are placed by name, not by position", floor=2)
     syn = ctx.syn
     fs = [f for f in syn.fns if f["crate"] == "prqlc" and f["file"].endswith("semantic/lowering.rs") and f["name"] == "lower_table_ref" and "body" in f]
     if len(fs) != 1:
@@ -453,6 +453,30 @@ def r8(ctx, rep):
         raise AnchorMissing("lower_table_ref: arm pl::ExprKind::Array")
     builds = any(n.get("k") == "struct" and last_seg(n["p"]) == "RelationLiteral" for n in walk(arm["body"]))
     by_name = [n for n in walk(arm["body"]) if n.get("k") == "bin" and n["op"] == "==" and (".alias" in show(n["lhs"], maxdepth=6) or ".alias" in show(n["rhs"], maxdepth=6))]
+    # direction of the placement: the element that goes to the next output position (in column order) is the one FOUND by the alias search;
+    # the search result is the index to read from, never the slot to write to
+    def _top(e):
+        while isinstance(e, dict) and e.get("k") in ("try", "paren"):
+            e = e["e"]
+        return e or {}
+    found = [n for n in walk(arm["body"]) if n.get("k") in ("local", "let") and _top(n.get("init") or n.get("e")).get("k") == "mcall" and _top(n.get("init") or n.get("e"))["m"] == "position"
+             and any(x.get("k") == "bin" and x["op"] == "==" and ".alias" in show(x, maxdepth=8) for x in walk(n.get("init") or n.get("e") or {}))]
+    pos_names = sorted({x["n"] for n in found for x in walk(n["pat"]) if x.get("k") == "p_ident" and x["n"][0].islower()})
+    wrong = []
+    if pos_names:
+        P = pos_names[0]
+        uses_P = lambda e: any(x.get("k") == "path" and x["p"] == P for x in walk(e))
+        for n in walk(arm["body"]):
+            if n.get("k") == "assign" and n["lhs"].get("k") == "index":
+                if uses_P(n["lhs"]["i"]):
+                    wrong.append(f"`{show(n)}` writes to the slot found by the search")
+                elif not uses_P(n["rhs"]) and "fields" in show(n["rhs"], maxdepth=6):
+                    wrong.append(f"`{show(n)}` does not read the field found by the search")
+            if n.get("k") == "mcall" and n["m"] == "push" and n["a"] and "fields" in show(n["a"][0], maxdepth=8) and any(x.get("k") in ("index",) or (x.get("k") == "mcall" and x["m"] in ("remove", "swap_remove", "get")) for x in walk(n["a"][0])):
+                if not uses_P(n["a"][0]):
+                    wrong.append(f"`{show(n)}` does not take the field found by the search")
+    rep.check(bool(pos_names) and not wrong, "rows-by-field-name:direction", f"for each column (in column order) the field whose alias equals the column name is searched for and must be the one placed next: {wrong or 'no alias search (`position`) found'}; "
+              "the inverse permutation is right for identity and swaps but wrong for a cyclic shift of three or more fields", file=f["file"], line=arm["l"], fn=f["path"])
     rep.check(builds and bool(by_name), "rows-by-field-name", "the rows of `from [{a=1, b=2}, {b=3, a=4}]` are tuples with named fields; lowering must place each field under the column of its name "
               "(compare `field.alias` with the column names) - read positionally, the second row becomes a=3, b=4", file=f["file"], line=arm["l"], fn=f["path"])
 
